@@ -429,9 +429,21 @@ def conc_cases(tier, seed):
                 }
 
 
+def cancel_cases(tier, seed):
+    """a request is abandoned by its client (task cancelled) while one of its LLM calls is in flight; afterwards the instance
+    serves another conversation"""
+    rng = random.Random(3500 + seed)
+    for n in range(24 if tier == "quick" else 240):
+        mode = rng.choice(["general", "dialog", "dialog", "single_call", "passthrough"])
+        g = "x%d" % n
+        yield {"wl": "cancel", "fam": "cancel", "mode": mode, "k": 0, "m": 0, "cancel_at": rng.randint(0, LLM_CALLS_PER_TURN[mode] - 1),
+               "convs": [conv([[U("a0 abandoned %s" % g)]], rng.choice(PARAM_POOL)), conv([[U("b0 served later %s" % g)], [U("b1 again %s" % g)]], rng.choice([None, None] + PARAM_POOL[1:3]))],
+               "answers": {}, "default": "hash", "tag": g}
+
+
 def cases(tier, seed):
     i = 0
-    a, b = itertools.chain(seq_cases(tier, seed), seq_cases_v2(tier, seed)), conc_cases(tier, seed)
+    a, b = itertools.chain(seq_cases(tier, seed), seq_cases_v2(tier, seed)), itertools.chain(conc_cases(tier, seed), cancel_cases(tier, seed))
     # alternate so that a --limit run sees both workloads
     for x, y in itertools.zip_longest(a, b):
         for c in (x, y):
@@ -869,6 +881,53 @@ async def run_conc(inst, case):
     return out, inst.rest(), {"actual": actual, "fallback": fallback, "max_in_flight": gate.max_in_flight, "spins": spins_total}
 
 
+async def run_cancel(inst, case):
+    """conversation 0 is started; its LLM calls park on the gate; call number `cancel_at` is not released - the task is cancelled
+    instead (what a server does when the client went away / a timeout fired). Then conversation 1 is served, ungated."""
+    import asyncio
+
+    convs = case["convs"]
+    gate = Gate()
+    inst.gate = gate
+    inst.llm.gate = gate
+    loop = asyncio.get_running_loop()
+    c0 = convs[0]
+
+    async def first():
+        msgs = list(c0["turns"][0])
+        return await _serve(inst, 0, msgs, c0["turns"][0], c0)
+
+    task = loop.create_task(first())
+    parked = 0
+    cancelled_at = None
+    try:
+        for _ in range(200000):
+            await asyncio.sleep(0)
+            if task.done():
+                break
+            w = gate.waiting()
+            if w:
+                if parked == case["cancel_at"]:
+                    cancelled_at = parked
+                    task.cancel()
+                    try:
+                        await task
+                    except BaseException:
+                        pass
+                    break
+                parked += 1
+                w[0][3] = True
+                w[0][2].set_result(None)
+    finally:
+        if not task.done():
+            task.cancel()
+        inst.gate = None
+        inst.llm.gate = None
+    rest_after_cancel = inst.rest()
+    recs, rests = await run_alone(inst, 1, convs[1])
+    return cancelled_at, rest_after_cancel, recs, rests
+
+
 # ----------------------------------------------------------------------------- oracles and the two mechanism models
 def join_key(msgs):
     """independent statement of the role-free ':'-join (NOT the repo function)"""
@@ -997,7 +1056,7 @@ def run_case(case):
     wl = case["wl"]
     convs = case["convs"]
     n = len(convs)
-    sched = case["order"] if wl == "seq" else [case["start"], case["release"]]
+    sched = case["order"] if wl == "seq" else (["cancel at LLM call", case["cancel_at"]] if wl == "cancel" else [case["start"], case["release"]])
     base = {
         "key": json.dumps([wl, case["mode"], case["k"], case["m"], convs, case["answers"], case["default"], sched], sort_keys=True),
         "wl": wl,
@@ -1034,7 +1093,26 @@ def run_case(case):
     # --- shared run
     shared = Inst(case)
     facts = {"asked_new_keys": sorted({p for c in convs for p in (c.get("params") or {}) if p not in ("temperature", "max_tokens") and p not in CONFIGURED["model_kwargs"]})}
-    if wl == "seq":
+    if wl == "cancel":
+        cancelled_at, rest0, recs1, rests1 = _run(run_cancel(shared, case))
+        obs["requests_abandoned_mid_llm_call"] = int(cancelled_at is not None)
+        if cancelled_at is None:
+            return dict(base, verdict="inconclusive", reason="expected:request-finished-before-the-planned-cancellation", observed=obs)
+        base["nontrivial"] = True
+        obs["rest_checks"] += 1
+        if rest0 != CONFIGURED:
+            viol.append({"kind": "rest", "scope": "shared", "after": "request abandoned while LLM call %d was in flight" % cancelled_at, "observed": rest0, "configured": CONFIGURED, "params": convs[0].get("params")})
+        for t, sh in enumerate(recs1):
+            if t < len(iso[1]):
+                compare_turn(1, t, sh, iso[1][t], viol)
+                obs["turns_compared"] += 1
+                obs["llm_calls_compared"] += len(iso[1][t]["calls"])
+                obs["prompts_compared"] += len(iso[1][t]["calls"])
+        for t, r in enumerate(rests1):
+            obs["rest_checks"] += 1
+            if r != CONFIGURED:
+                viol.append({"kind": "rest", "scope": "shared", "conv": 1, "turn": t, "observed": r, "configured": CONFIGURED})
+    elif wl == "seq":
         out, rests, served = _run(run_seq(shared, case))
         for who, t, r in rests:
             obs["rest_checks"] += 1
